@@ -882,17 +882,26 @@ def run_real(case, scale=1):
             rt._inner.shutdown(wait=False)
             man = ManualExecutor()
             rt._inner = man
-            fut = process_graphql_query(schema, doc, runtime=rt, **kw)
-            steps = 0
-            while man.queue:
-                steps += 1
-                # every step completes one task; the number of tasks is bounded by the number of fields of the case
-                if steps > stall + 50 * (count_nodes(case["fields"]) + 60):
-                    raise Hang("manual executor does not drain")
-                if _time.monotonic() - t_start > INFRA_SECONDS:
-                    raise InfraBound("%.0f s" % INFRA_SECONDS)
-                i = (sched.pop(0) if sched else 0) % len(man.queue)
-                man.run(i)
+            # single-threaded world: a blocking wait of the code under test on a pending Future can never return - detected
+            # deterministically (C08_world._Deadlock), also when the code swallowed the detector's exception
+            wd = W08.watchdog(seconds=INFRA_SECONDS + 5, single_threaded=True)
+            try:
+                with wd:
+                    fut = process_graphql_query(schema, doc, runtime=rt, **kw)
+                    steps = 0
+                    while man.queue:
+                        steps += 1
+                        # every step completes one task; the number of tasks is bounded by the number of fields of the case
+                        if steps > stall + 50 * (count_nodes(case["fields"]) + 60):
+                            raise Hang("manual executor does not drain")
+                        if _time.monotonic() - t_start > INFRA_SECONDS:
+                            raise InfraBound("%.0f s" % INFRA_SECONDS)
+                        i = (sched.pop(0) if sched else 0) % len(man.queue)
+                        man.run(i)
+            except W08.Watchdog:
+                raise Hang("the code under test blocks the calling thread on a pending Future")
+            if wd.blocked:
+                raise Hang("the code under test blocks the calling thread on a pending Future")
             if not fut.done():
                 raise Hang("result future never completed")     # nothing left to run and nothing running: not time dependent
             result = fut.result(timeout=0)
@@ -1797,8 +1806,11 @@ def probe_default_resolved_deferred_list(ctx, only=None):
             runs += 1
             try:
                 rec, status = runner(n, nonnull, style, failing, order)
-            except (W08.Watchdog, KeyboardInterrupt):
+            except KeyboardInterrupt:
                 raise
+            except W08.Watchdog:        # the code under test blocks the calling thread: never completes = C08's subject
+                ctx.stat("probe:default-resolved-deferred-list:blocks")
+                continue
             except Exception:  # noqa  -- an escaping exception produces no outcome: outside the statement (C08's subject)
                 ctx.stat("probe:default-resolved-deferred-list:raised")
                 continue
